@@ -2293,6 +2293,25 @@ def c20(tier):
                 steps += [{"h": 0, "op": "open", "i": 4}, {"h": 0, "op": "readall"}]
                 scs.append({"sc": "alone-%d-%s-%d" % (i, "".join(map(str, perm)), twice), "hex": db.hex(), "handles": len(perm), "differential": True, "steps": steps})
                 nd += 1
+    # handles re-targeted at ANOTHER archive through Clone::clone_from after they looked entries up by name / by index in the first one
+    # (same names in a different order, other names, fewer entries): afterwards they behave like fresh handles of that archive
+    a1 = [{"name": b"alpha", "method": 8, "data": b"alpha of the first archive " * 3}, {"name": b"beta", "method": 0, "data": b"beta-1"},
+          {"name": b"gamma", "method": 8, "data": b"gamma-1 " * 9}]
+    a2 = [{"name": b"gamma", "method": 0, "data": b"gamma of the SECOND archive"}, {"name": b"alpha", "method": 8, "data": b"second alpha " * 5},
+          {"name": b"delta", "method": 0, "data": b"only in the second"}]
+    b1, _ = refzip.build({"entries": a1})
+    b2, _ = refzip.build({"entries": a2})
+    for j, pre in enumerate(([], [("name", "alpha")], [("i", 2)], [("name", "beta"), ("name", "gamma")])):
+        steps = []
+        for h in (0, 1):
+            for kind, val in pre:
+                steps += [dict({"h": h, "op": "open"}, **({"name": val} if kind == "name" else {"i": val})), {"h": h, "op": "readall"}]
+        steps.append({"h": 0, "op": "retarget"})
+        for nm in ("alpha", "beta", "gamma", "delta"):
+            steps += [{"h": 0, "op": "open", "name": nm, "i": 0}, {"h": 0, "op": "readall"}, {"h": 1, "op": "open", "name": nm, "i": 0}, {"h": 1, "op": "readall"}]
+        steps += [{"h": 0, "op": "open", "i": 0}, {"h": 0, "op": "readall"}]
+        scs.append({"sc": "retarget-%d" % j, "hex": b1.hex(), "hex2": b2.hex(), "handles": 2, "differential": True, "steps": steps})
+        nd += 1
     rep.notes["differential_alone_scenarios"] = nd
     # clones taken MID-LIFE (Clones!CloneFrom), from readers whose Clone keeps the position (like a Cursor), restarts at 0 (like a
     # reader that reopens its file) or sits at the end: after handle g read entry i (none of it, part, all of it - then g's reader
@@ -2538,6 +2557,11 @@ def c11(tier):
             rscs.append({"sc": "r-%s-buf8" % name, "hex": b.hex(), "via": "seek", "epw": epw, "buf": 8})
         if name == "plain":
             rscs.append({"sc": "r-plain-stream", "hex": b.hex(), "via": "stream", "epw": []})
+            # the same through read_to_end (buf = 0): an entry whose first read fails must stay usable (read again, release)
+            rscs.append({"sc": "r-plain-rte", "hex": b.hex(), "via": "seek", "epw": epw, "buf": 0})
+            rscs.append({"sc": "r-plain-stream-rte", "hex": b.hex(), "via": "stream", "epw": [], "buf": 0})
+        if name == "ae2":
+            rscs.append({"sc": "r-ae2-rte", "hex": b.hex(), "via": "seek", "epw": epw, "buf": 0})
     rscs.append({"sc": "r-zip64", "hex": z64.hex(), "via": "seek", "epw": []})
     # a source that returns short reads: releasing a partly read entry then has real draining to do
     pb = next(b for n, b, v, p in rseeds if n == "plain")
